@@ -292,8 +292,10 @@ func (n *xnode) src(r *gen.Rng, redundant bool) string {
 		}
 		b.WriteString("EOT\n")
 		for _, k := range n.kids {
-			if k.k == "S" {
-				b.WriteString(k.s) // no escapes in a heredoc; the generator keeps $ % out of the text
+			if k.k == "S" && (k.s == "${" || k.s == "%{") {
+				b.WriteString(k.s[:1] + k.s) // written escaped: $${ / %%{
+			} else if k.k == "S" {
+				b.WriteString(k.s) // no other escapes in a heredoc; the generator keeps lone $ % out of the text
 			} else {
 				b.WriteString("${" + sp() + k.src(r, redundant) + sp() + "}")
 			}
@@ -958,7 +960,12 @@ func runC18(c *Ctx) {
 			}
 			lit := r.Chance(2, 3)
 			for i := 0; i < 1+r.Intn(3); i++ {
-				if lit {
+				if lit && r.Chance(1, 6) {
+					// an escaped marker: the scanner yields it as a literal of its own, which reads "${" / "%{"
+					flushLit()
+					h.kids = append(h.kids, &xnode{k: "S", s: gen.Pick(r, []string{"${", "%{"})})
+					cur = gen.Pick(r, []string{"x}", "y} z", "k"}) // (text follows on the line: a line end right behind the escape joins its token)
+				} else if lit {
 					cur += gen.Pick(r, []string{"a", "b c", "x=", "-", "é", "line", " ", "\"q\"", "t\tu"})
 				} else {
 					flushLit()
